@@ -81,3 +81,41 @@ Theorem C08_source_tie_split_inner : forall nf bf es cache ax,
   | None => None
   end = Some (split_node nf (Inner bf es cache) ax).
 Proof. exact split_node_inner_gen. Qed.
+
+(* ---- the source tie reaches every reachable state (Proofs/TreePlanInv.v) ----
+   every node of a state satisfying st_inv is node_ok, so the insertion tie applies at every node the
+   insertion visits; [row_is_source]: for the state a row meets, (1) the extracted fit loop body = one model
+   insertion, (2) the extracted insert_bf_subcluster body = Tree.insert at the root and at every sub-node
+   (also with the recursive calls run by the interpreter itself: insert_deep), (3) whenever the root must
+   split, the extracted _split_node body = Tree.split_node.  For EVERY documented history and every fit
+   after it, every row of that fit meets a state with st_inv and is_source holds; the fit is the fold of the
+   extracted loop body over its rows.  The leaf-chain splice of the extracted `if node2.is_leaf:` block, on
+   an arbitrary well-formed doubly linked chain, yields the list chain_ins_before. *)
+From BB Require Import Model.FitPlan Gen.GFit Proofs.TreePlanInv.
+From Coq Require Import List.
+Theorem C08_reachable_nodes_ok : forall st r, st_inv st -> root st = Some r -> all_nodes_ok r.
+Proof. exact st_inv_all_nodes_ok. Qed.
+Theorem C08_row_is_source : forall fexp cf st r fp l,
+  st_inv st -> root st = Some r -> row_is_source fexp cf st fp l.
+Proof. exact insert_root_gen. Qed.
+Theorem C08_reachable_insertions_are_source : forall fexp cfg0 ops rows,
+  2 <= c_bf cfg0 -> ops_wf fexp (init cfg0) ops -> ops_perms_ok fexp (init cfg0) ops ->
+  let st := run fexp cfg0 ops in
+  op_wf st (OFit rows None) ->
+  let st1 := fit_start st rows in
+  Forall (fun x => st_inv (fst (fst x)) /\
+                   row_is_source fexp (cfg st1) (fst (fst x)) (snd (fst x)) (snd x))
+         (fit_trace fexp (cfg st1) st1 rows (zseq (nfit st1) (length rows))) /\
+  (released st = false -> rows <> nil ->
+   fst (step fexp st (OFit rows None)) =
+   fold_left (fun s x => run_fit_body fexp GFit.fit_loop_body (cfg st1) s (snd (fst x)) (snd x))
+             (fit_trace fexp (cfg st1) st1 rows (zseq (nfit st1) (length rows))) st1).
+Proof. exact reachable_insertions_are_source. Qed.
+Theorem C08_source_tie_chain_splice : forall body l d chain n1 n2,
+  In (DIfLeaf body) GTree.split_node_body ->
+  dl_path l d chain -> NoDup (d :: chain) -> ~ In n1 (d :: chain) -> In n2 chain ->
+  exists l', run_chain n1 n2 body l = Some l' /\
+    dl_path l' d (chain_ins_before n2 n1 chain) /\
+    forall k, walk_next l' (S (length (chain_ins_before n2 n1 chain)) + k) d
+              = d :: chain_ins_before n2 n1 chain.
+Proof. exact chain_splice_general_gen. Qed.
